@@ -39,6 +39,10 @@ type walked struct {
 	version             int64
 	exts                [][]byte // full Extension encodings
 	extOIDs             []string
+	extCrit             []bool
+	extVal              [][]byte
+	uid1, uid2          stdasn1.BitString
+	full                bool // filled by walkStd: exts / extOIDs / extCrit / extVal / uid1 / uid2 are meaningful
 	ok                  bool
 }
 
@@ -92,8 +96,12 @@ func walkStd(der []byte) (w walked) {
 	for _, e := range c.TBS.Exts {
 		w.exts = append(w.exts, e.Raw)
 		w.extOIDs = append(w.extOIDs, e.Id.String())
+		w.extCrit = append(w.extCrit, e.Critical)
+		w.extVal = append(w.extVal, e.Value)
 	}
+	w.uid1, w.uid2 = c.TBS.UID1, c.TBS.UID2
 	w.ok = w.tbs.off >= 0 && w.iss.off >= 0 && w.sub.off >= 0 && w.spki.off >= 0
+	w.full = w.ok
 	return
 }
 
@@ -226,6 +234,10 @@ func exec(line string) zv.Out {
 		return execCT(f)
 	case "wrap":
 		return execWrap(f)
+	case "std":
+		return execStd(f)
+	case "bundle":
+		return execBundle(f)
 	case "panic":
 		der := zv.UnHex(f[2])
 		msg := func() (m string) {
@@ -259,23 +271,37 @@ func execCert(f []string) zv.Out {
 		return zv.Out{Go: "err", Viol: "harness: generator emitted a certificate ParseCertificate rejects: " + err.Error()}
 	}
 	tags := []string{"src=" + f[5], "canon=" + canon, "selfsig=" + b01(c.SelfSigned), "ver=" + fmt.Sprint(c.Version)}
+	if vbit == "u" {
+		tags = append(tags, "selfsig-oracle=unknown")
+	}
+	out := "ok " + certSummary(c, canon, vbit)
+
+	// ---- T3: the property on the implementation alone ----
+	viol, mtags := metaViol(c, der, canon, vbit)
+	tags = append(tags, mtags...)
+	return zv.Out{Go: out, Viol: strings.Join(viol, "; "), Tags: tags}
+}
+
+// certSummary: the canonical T2 text of one parsed certificate (what the Lean driver prints for its model of it).
+func certSummary(c *x509.Certificate, canon, vbit string) string {
 	ss := b01(c.SelfSigned)
 	if vbit == "u" {
 		ss = "u"
-		tags = append(tags, "selfsig-oracle=unknown")
 	}
 	noct := "-"
 	if canon == "1" {
 		noct = hx(c.FingerprintNoCT)
 	}
 	eq := bytes.Equal(c.RawSubject, c.RawIssuer)
-	out := fmt.Sprintf("ok v=%d tbs=%s iss=%s sub=%s spki=%s md5=%s sha1=%s sha256=%s spkifp=%s tbsfp=%s spkisub=%s noct=%s eq=%s ss=%s",
+	return fmt.Sprintf("v=%d tbs=%s iss=%s sub=%s spki=%s md5=%s sha1=%s sha256=%s spkifp=%s tbsfp=%s spkisub=%s noct=%s eq=%s ss=%s",
 		c.Version, goSpan(c.Raw, c.RawTBSCertificate), goSpan(c.Raw, c.RawIssuer), goSpan(c.Raw, c.RawSubject),
 		goSpan(c.Raw, c.RawSubjectPublicKeyInfo), hx(c.FingerprintMD5), hx(c.FingerprintSHA1), hx(c.FingerprintSHA256),
 		hx(c.SPKIFingerprint), hx(c.TBSCertificateFingerprint), hx(c.SPKISubjectFingerprint), noct, b01(eq), ss)
+}
 
-	// ---- T3: the property on the implementation alone ----
-	var viol []string
+// metaViol: the property evaluated on ONE Certificate value c that some entry point returned for the DER der:
+// every metadata field is what an independent walk of der says (standard library only).
+func metaViol(c *x509.Certificate, der []byte, canon, vbit string) (viol []string, tags []string) {
 	bad := func(format string, a ...any) { viol = append(viol, fmt.Sprintf(format, a...)) }
 	if !bytes.Equal(c.Raw, der) {
 		bad("Raw is not the input")
@@ -335,6 +361,12 @@ func execCert(f []string) zv.Out {
 		} else if c.SelfSigned && !bytes.Equal(iss, sub) {
 			bad("SelfSigned although issuer != subject")
 		}
+		// optional TBS fields: the extension list and the unique identifiers are those of THIS DER (nothing inherited,
+		// nothing dropped), and IsCA / KeyUsage come from its own basicConstraints / keyUsage extension
+		if w.full {
+			viol = append(viol, optionalViol(c, &w)...)
+			tags = append(tags, fmt.Sprintf("exts=%d", min(len(w.exts), 9)))
+		}
 		// no-CT fingerprint: for a canonical certificate without CT extensions and with at least one extension the
 		// re-marshalled TBS is the TBS itself
 		hasCT := false
@@ -373,7 +405,77 @@ func execCert(f []string) zv.Out {
 	if c.ValidityPeriod != int(c.NotAfter.Sub(c.NotBefore).Seconds()) {
 		bad("ValidityPeriod")
 	}
-	return zv.Out{Go: out, Viol: strings.Join(viol, "; "), Tags: tags}
+	return viol, tags
+}
+
+func bitsEq(a stdasn1.BitString, bytesB []byte, lenB int) bool {
+	return a.BitLength == lenB && bytes.Equal(a.Bytes, bytesB)
+}
+
+// optionalViol: independent reading (encoding/asn1 of the standard library) of the OPTIONAL parts of the TBS.
+func optionalViol(c *x509.Certificate, w *walked) (viol []string) {
+	bad := func(format string, a ...any) { viol = append(viol, fmt.Sprintf(format, a...)) }
+	if len(c.Extensions) != len(w.exts) {
+		bad("Extensions has %d entries, the DER has %d", len(c.Extensions), len(w.exts))
+	} else {
+		for i, e := range c.Extensions {
+			if e.Id.String() != w.extOIDs[i] || e.Critical != w.extCrit[i] || !bytes.Equal(e.Value, w.extVal[i]) {
+				bad("Extensions[%d] (%s) is not extension %d of the DER (%s)", i, e.Id.String(), i, w.extOIDs[i])
+				break
+			}
+		}
+	}
+	if !bitsEq(w.uid1, c.IssuerUniqueId.Bytes, c.IssuerUniqueId.BitLength) {
+		bad("IssuerUniqueId %x/%d is not the [1] field of the DER %x/%d", c.IssuerUniqueId.Bytes, c.IssuerUniqueId.BitLength, w.uid1.Bytes, w.uid1.BitLength)
+	}
+	if !bitsEq(w.uid2, c.SubjectUniqueId.Bytes, c.SubjectUniqueId.BitLength) {
+		bad("SubjectUniqueId %x/%d is not the [2] field of the DER %x/%d", c.SubjectUniqueId.Bytes, c.SubjectUniqueId.BitLength, w.uid2.Bytes, w.uid2.BitLength)
+	}
+	var bc, ku [][]byte
+	for i, o := range w.extOIDs {
+		switch o {
+		case "2.5.29.19":
+			bc = append(bc, w.extVal[i])
+		case "2.5.29.15":
+			ku = append(ku, w.extVal[i])
+		}
+	}
+	switch len(bc) {
+	case 0:
+		if c.IsCA || c.BasicConstraintsValid {
+			bad("IsCA=%v BasicConstraintsValid=%v but the DER has no basicConstraints extension", c.IsCA, c.BasicConstraintsValid)
+		}
+	case 1:
+		var v struct {
+			IsCA       bool `asn1:"optional"`
+			MaxPathLen int  `asn1:"optional,default:-1"`
+		}
+		if rest, err := stdasn1.Unmarshal(bc[0], &v); err == nil && len(rest) == 0 {
+			if c.IsCA != v.IsCA || !c.BasicConstraintsValid {
+				bad("IsCA=%v BasicConstraintsValid=%v but the basicConstraints extension of the DER says cA=%v", c.IsCA, c.BasicConstraintsValid, v.IsCA)
+			}
+		}
+	}
+	switch len(ku) {
+	case 0:
+		if c.KeyUsage != 0 {
+			bad("KeyUsage=%d but the DER has no keyUsage extension", c.KeyUsage)
+		}
+	case 1:
+		var bs stdasn1.BitString
+		if rest, err := stdasn1.Unmarshal(ku[0], &bs); err == nil && len(rest) == 0 {
+			want := 0
+			for i := 0; i < 9; i++ {
+				if bs.At(i) != 0 {
+					want |= 1 << uint(i)
+				}
+			}
+			if int(c.KeyUsage) != want {
+				bad("KeyUsage=%d but the keyUsage extension of the DER gives %d", c.KeyUsage, want)
+			}
+		}
+	}
+	return
 }
 
 // ---------- input = prefix ‖ DER ‖ suffix: the whole input is the certificate, or it is rejected ----------
@@ -826,6 +928,10 @@ func gen(g *zv.Gen) {
 			}
 		}
 	}
+	// 3b. certificates made without zcrypto (crypto/x509 of the standard library, every signature algorithm it signs with,
+	// self-signed / same name other key / other name own key / other name other key, surgical v1 / unique-id / empty-[3] /
+	// poison variants signed again with standard-library primitives) and bundles through every parse entry point
+	genEntry(g, append([][]byte{}, accepted...), add)
 	// 4. byte-level mutants; the accepted ones are cases, the rejected ones are only counted
 	nMut := g.N(6000, 250000)
 	pool := append([][]byte{}, accepted...)
@@ -904,5 +1010,5 @@ func gen(g *zv.Gen) {
 
 func init() {
 	zv.Register(&zv.Prop{ID: "C06", Topic: "c06", Gen: gen, Exec: exec,
-		Rule: "every certificate shipped as a fixture in zcrypto (PEM blocks under x509/, data/, tls/, ct/), certificates created by x509.CreateCertificate over random templates x {RSA-1024/2048, P-224..P-521, Ed25519} x signature algorithms x self-signed/issued, structural variants that asn1.Unmarshal still accepts (trailing elements, version field absent/0/1/5, inconsistent [0] wrapper, unique ids, empty / non-SEQUENCE [3]), byte-level mutants that still parse, and for canonical certificates the CT families (poison / SCT list / both inserted at every position, or removed); and for accepted certificates of every source the inputs prefix || DER || suffix (suffix classes: ASCII white space \\n \\r\\n space tab \\v \\f and runs / pairs of them, Unicode white space, white space followed by junk, zero bytes, a second TLV incl. a second certificate, truncated TLVs, PEM armour fragments and base64 characters, every single byte value, random bytes; prefixes: white space, zero, BOM, PEM header) with the oracle: accepted => Raw == the bytes fed in and the MD5/SHA-1/SHA-256 fingerprints are hashes of the whole input (the model rejects every non-empty suffix after a complete certificate); a case is one distinct accepted DER or one wrapped input; T3 = independent encoding/asn1 + cryptobyte walk, standard-library hashes and signature verification"})
+		Rule: "every certificate shipped as a fixture in zcrypto (PEM blocks under x509/, data/, tls/, ct/), certificates created by x509.CreateCertificate over random templates x {RSA-1024/2048, P-224..P-521, Ed25519} x signature algorithms x self-signed/issued, structural variants that asn1.Unmarshal still accepts (trailing elements, version field absent/0/1/5, inconsistent [0] wrapper, unique ids, empty / non-SEQUENCE [3]), byte-level mutants that still parse, and for canonical certificates the CT families (poison / SCT list / both inserted at every position, or removed); and for accepted certificates of every source the inputs prefix || DER || suffix (suffix classes: ASCII white space \\n \\r\\n space tab \\v \\f and runs / pairs of them, Unicode white space, white space followed by junk, zero bytes, a second TLV incl. a second certificate, truncated TLVs, PEM armour fragments and base64 characters, every single byte value, random bytes; prefixes: white space, zero, BOM, PEM header) with the oracle: accepted => Raw == the bytes fed in and the MD5/SHA-1/SHA-256 fingerprints are hashes of the whole input (the model rejects every non-empty suffix after a complete certificate); certificates made WITHOUT zcrypto: crypto/x509.CreateCertificate of the Go standard library for every key of the pool x every signature algorithm it signs with (PKCS#1 v1.5 SHA-1/256/384/512, RSASSA-PSS SHA-256/384/512, ECDSA P-224..P-521 x SHA-1/256/384/512, Ed25519) x {self-signed, issuer=subject signed by another key of the same / another kind, issuer!=subject signed by the own key, issuer!=subject signed by another key} x templates with / without extensions, their surgical variants (v1, v3 without extensions, unique ids with / without extensions, present-but-empty [3], CT poison) signed again with standard-library primitives by the own or another key, and flipped signatures; oracle (std lines, T3): SelfSigned <=> issuer bytes = subject bytes and standard-library verification under the certificate's own key (construction, crypto/x509.CheckSignature and the bare primitive must agree), SignatureAlgorithm / Raw fields / Version / IsCA / KeyUsage / #Extensions equal crypto/x509's, Certificate.CheckSignature under the own key agrees; the same DERs also go through the cert stream (T2); bundles (T3): 1-4 certificates, a zoo of archetypes (RSA-PKCS#1 / RSA-PSS / ECDSA / Ed25519 v3 with extensions, v3 without, RSA / ECDSA / Ed25519 v1, unique ids with / without extensions, empty [3], CT poison, two random pool members) in every ordered pair incl. (x,x), random 3- and 4-subsets in every order, random bundles over all accepted certificates; oracle: ParseCertificates(concatenation) (twice), ParseCertificates(single), ParseCertificate (second call), JSONCertificateWithRaw.ParseRaw, CertPool.AppendCertsFromPEM (twice, with non-certificate blocks in between; order, de-duplication, Contains) return values that are deep-equal field for field to ParseCertificate on the same DER alone and pass the absolute oracle; ParseTBSCertificate(RawTBSCertificate) (twice) is deep-equal in every field except Raw / the three certificate fingerprints (= TBS bytes and their hashes), Signature (empty), SelfSigned (false) and, for self-signed references, ValidationLevel; earlier returned values are unchanged afterwards; the absolute oracle now also compares Extensions (OID, critical, value, order, count), IssuerUniqueId / SubjectUniqueId, IsCA / BasicConstraintsValid and KeyUsage with an independent encoding/asn1 reading of the DER (absent extension => zero value); a case is one distinct accepted DER, one wrapped input or one bundle; T3 = independent encoding/asn1 + cryptobyte walk, standard-library hashes, crypto/x509 and signature verification"})
 }
